@@ -428,6 +428,8 @@ def drawn_names(case, rin, rout):
     def walk(items, prefix):
         for k, it in enumerate(items):
             key = f"{prefix}{k}"
+            if not parse_conds(it)["rule"]:
+                continue          # not applied: nothing drawn that shows in the rule
             if it["type"] == "nest":
                 walk(it["items"], key + ".")
             elif it["type"] == "add_condition" and not it.get("name") and new:
